@@ -136,6 +136,9 @@ def run(ctx):
         cs = list(gh.calls(row["setter"]))
         ok = len(cs) == 1 and {c for c in depends(gh, cs[0]["args"][0])[1] if c.startswith(TH + "::get")} == {row["source"]} and \
             facts.flows_unchanged(gh, cs[0]["args"][0], row["source"])
+        ls = facts.lossy_step(gh, cs[0]["args"][0], row["source"]) if ok else None
+        if ls:
+            res.bad("C15-R3", "header:%s:value-kept" % row["setter"].split("::")[-1], cs[0].get("loc"), "%s: values outside that type's range arrive changed" % ls)
         res.check(ok, "C15-R3", "header:%s" % row["setter"].split("::")[-1], cs[0].get("loc") if cs else gh.loc, "%s <- %s" % (row["setter"].split("::")[-1], row["source"]),
                   "%s is not fed from exactly %s" % (row["setter"], row["source"]))
     for fname in spec["tecmp_payload"]:
@@ -152,6 +155,10 @@ def run(ctx):
                 got = {x for x in calls if x.startswith("TECMP::") and "::get" in x and not x.endswith("::get")}
                 if got == {row["source"]} and facts.flows_unchanged(f, c["args"][arg], row["source"]):
                     ok = True
+                    lossy = facts.lossy_step(f, c["args"][arg], row["source"])
+                    if lossy and not row.get("narrows"):
+                        res.bad("C15-R3", "%s:%s[%d]:value-kept" % (fname.split("::")[-1], row["setter"].split("::")[-1], arg), c.get("loc"),
+                                "%s: %s — values outside that type's range arrive changed (a serial number >= 2^31 turns negative, a long length is cut)" % (fname, lossy))
             res.check(ok, "C15-R3", "%s:%s[%d]" % (fname.split("::")[-1], row["setter"].split("::")[-1], arg), cs[0].get("loc") if cs else f.loc,
                       "%s arg %d <- %s" % (row["setter"].split("::")[-1], arg, row["source"].split("::")[-1]),
                       "%s: argument %d of %s comes from %s, expected exactly %s" % (fname, arg, row["setter"], sorted(got or []), row["source"]))
